@@ -29,6 +29,7 @@ import (
 
 	"github.com/ThreeDotsLabs/watermill"
 	"github.com/ThreeDotsLabs/watermill/message"
+	pkgerrors "github.com/pkg/errors"
 
 	"wmverif/wh"
 )
@@ -36,7 +37,9 @@ import (
 // ---------------------------------------------------------------- scripts
 
 type script struct {
-	self   byte   // '-', 'a', 'n'
+	self byte // '-', 'a', 'n' (settles inside the handler); 'A', 'N': a helper goroutine started by the handler settles, racing the Router's own Ack/Nack
+	// error kinds: 'e' errors.New, 'c' context.Canceled, 'd' context.DeadlineExceeded, 'w' fmt.Errorf("%w") around
+	// DeadlineExceeded, 'x' pkg/errors.Wrap around Canceled, 'u' custom error type, 'j' errors.Join(plain, DeadlineExceeded)
 	kind   byte   // 'r' returns (nil slice when k = 0), 'z' returns an empty NON-NIL slice, 'e' plain error, 'c' context.Canceled, 'p' panics
 	k      int    // number of outputs (r/e/c)
 	pv     byte   // panic value: 'v' string, 'e' errors.New, 'n' nil, 'i' int, 's' struct value, 'b' []byte, 'c' custom error type, 'g' fmt.Stringer
@@ -47,12 +50,19 @@ type script struct {
 
 func parseScript(s string) (script, error) {
 	f := strings.Split(s, ".")
-	if len(f) != 3 || len(f[0]) != 1 || len(f[1]) < 2 {
+	if len(f) != 3 || len(f[0]) < 1 || len(f[0]) > 2 || len(f[1]) < 2 {
 		return script{}, fmt.Errorf("bad script %q", s)
 	}
 	sc := script{self: f[0][0], pub: f[2], source: s}
-	if !strings.ContainsRune("-an", rune(sc.self)) {
+	if !strings.ContainsRune("-anAN", rune(sc.self)) {
 		return sc, fmt.Errorf("bad self in %q", s)
+	}
+	if len(f[0]) == 2 {
+		// Aw/Al/Nw/Nl: a recorded outcome of the race (helper won/lost); the race is run again on replay
+		if (sc.self != 'A' && sc.self != 'N') || (f[0][1] != 'w' && f[0][1] != 'l') {
+			return sc, fmt.Errorf("bad self in %q", s)
+		}
+		sc.source = f[0][:1] + "." + f[1] + "." + f[2]
 	}
 	switch f[1][0] {
 	case 'p':
@@ -60,7 +70,7 @@ func parseScript(s string) (script, error) {
 		if len(f[1]) != 2 || !strings.ContainsRune("venisbcg", rune(sc.pv)) {
 			return sc, fmt.Errorf("bad panic in %q", s)
 		}
-	case 'r', 'e', 'c', 'z':
+	case 'r', 'e', 'c', 'z', 'd', 'w', 'x', 'u', 'j':
 		sc.kind = f[1][0]
 		k, err := strconv.Atoi(f[1][1:])
 		if err != nil || k < 0 || k > 1000 {
@@ -151,10 +161,18 @@ type msgState struct {
 	pubGate chan struct{} // the recording publisher parks here (inside Publish) until released
 	inPub   chan struct{} // closed when Publish was entered for this message
 	inPubO  sync.Once
-	entered chan struct{}
-	exited  chan struct{}
-	enterO  sync.Once
-	exitO   sync.Once
+	// race ('A'/'N'): the helper goroutine spins until raceGo is set (at the handler's return, or at the hook point
+	// router.handle.before_settle), spins raceSpin more rounds and settles; helperWon = what its Ack()/Nack() returned
+	raceGo     int32
+	raceSpin   int
+	raceAtHook bool
+	raceOver   int32
+	helperDone chan struct{}
+	helperWon  bool
+	entered    chan struct{}
+	exited     chan struct{}
+	enterO     sync.Once
+	exitO      sync.Once
 }
 
 func (m *msgState) log(e string) {
@@ -213,6 +231,8 @@ type panicStringer struct{}
 
 func (panicStringer) String() string { return "a fmt.Stringer" }
 
+var spinSink uint64 // sum of the helpers' spin rounds (keeps the spin loops from being optimised away)
+
 var errHandler = errors.New("handler failed")
 var errPublish = errors.New("publish failed")
 
@@ -235,6 +255,31 @@ func (s *scenario) handler(msg *message.Message) ([]*message.Message, error) {
 	<-st.gate
 	defer st.exitO.Do(func() { close(st.exited) })
 	switch st.sc.self {
+	case 'A', 'N':
+		go func() {
+			defer close(st.helperDone)
+			for n := 0; atomic.LoadInt32(&st.raceGo) == 0; n++ {
+				if atomic.LoadInt32(&st.raceOver) != 0 {
+					return
+				}
+				if n%4096 == 4095 {
+					runtime.Gosched()
+				}
+			}
+			var rounds uint64
+			for i := 0; i < st.raceSpin; i++ {
+				rounds += uint64(i) | 1
+			}
+			atomic.AddUint64(&spinSink, rounds)
+			if st.sc.self == 'A' {
+				st.helperWon = msg.Ack()
+			} else {
+				st.helperWon = msg.Nack()
+			}
+		}()
+		if !st.raceAtHook {
+			defer atomic.StoreInt32(&st.raceGo, 1) // runs after the handler's result is fixed, also when it panics
+		}
 	case 'a':
 		msg.Ack()
 		st.log("a")
@@ -275,6 +320,16 @@ func (s *scenario) handler(msg *message.Message) ([]*message.Message, error) {
 		return outs, errHandler
 	case 'c':
 		return outs, context.Canceled
+	case 'd':
+		return outs, context.DeadlineExceeded
+	case 'w':
+		return outs, fmt.Errorf("handler gave up: %w", context.DeadlineExceeded)
+	case 'x':
+		return outs, pkgerrors.Wrap(context.Canceled, "handler interrupted")
+	case 'u':
+		return outs, &panicErr{code: 9}
+	case 'j':
+		return outs, errors.Join(errHandler, context.DeadlineExceeded)
 	}
 	return outs, nil
 }
@@ -512,7 +567,7 @@ func (c *childOut) line(s string) {
 	c.mu.Unlock()
 }
 func (c *childOut) Begin(req string)      { c.line("REQ " + req) }
-func (c *childOut) Case(req, obs string)  { c.line("OBS " + obs) }
+func (c *childOut) Case(req, obs string)  { c.line("REQ " + req); c.line("OBS " + obs) }
 func (c *childOut) Count(key string)      { c.Add(key, 1) }
 func (c *childOut) Add(key string, n int) { c.line("ADD " + key + " " + strconv.Itoa(n)) }
 func (c *childOut) Note(text string)      { c.line("NOTE " + text) }
@@ -577,10 +632,19 @@ func runScenarioLate(out emitter, cfg config, scripts []script, rng *wh.Rng, yie
 	scenarioNo := atomic.AddUint64(&scenarioCtr, 1)
 	for i, sc := range scripts {
 		st := &msgState{idx: i, sc: sc, gate: make(chan struct{}), entered: make(chan struct{}), exited: make(chan struct{}),
-			pubGate: make(chan struct{}), inPub: make(chan struct{})}
+			pubGate: make(chan struct{}), inPub: make(chan struct{}), helperDone: make(chan struct{})}
+		if sc.self == 'A' || sc.self == 'N' {
+			// the window between the two settle calls is tens of nanoseconds wide: vary the helper's start by 0..~2000 rounds
+			st.raceSpin = rng.Intn(1 + []int{0, 8, 64, 300, 2000}[rng.Intn(5)])
+			// the Router's Ack is preceded by a hook point, its Nack is not
+			st.raceAtHook = sc.self == 'N' && rng.Intn(3) != 0
+		}
 		st.msg = message.NewMessage(fmt.Sprintf("s%d-m%d", scenarioNo, i), []byte("in"))
 		s.msgs = append(s.msgs, st)
 		s.byMsg.Store(st.msg, st)
+		if st.raceAtHook {
+			raceAt.Store(st.msg.UUID, st)
+		}
 	}
 	closeTimeout := 30 * time.Second
 	if atomic.LoadInt32(&degraded) != 0 {
@@ -802,6 +866,25 @@ func runScenarioLate(out emitter, cfg config, scripts []script, rng *wh.Rng, yie
 	} else if runErr != nil {
 		out.Note("Router.Run: " + runErr.Error())
 	}
+	for i, st := range s.msgs {
+		if st.sc.self != 'A' && st.sc.self != 'N' {
+			continue
+		}
+		atomic.StoreInt32(&st.raceGo, 1) // a handler that was released at the hook but never got there
+		select {
+		case <-st.entered:
+			waitCh(st.helperDone)
+		default: // handler never called: no helper
+		}
+		atomic.StoreInt32(&st.raceOver, 1)
+		raceAt.Delete(st.msg.UUID)
+		// the outcome of the race becomes part of the request: the model checks, it cannot predict
+		mark := "l"
+		if closedCh(st.helperDone) && st.helperWon {
+			mark = "w"
+		}
+		scripts[i].source = string(st.sc.self) + mark + st.sc.source[1:]
+	}
 	words := make([]string, 0, n+1)
 	for _, st := range s.msgs {
 		st.mu.Lock()
@@ -865,7 +948,8 @@ func lates(out emitter, rng *wh.Rng, yield bool) {
 						}
 						req := lateReqOf(l, cfg, scripts)
 						begin(out, req)
-						out.Case(req, runScenarioLate(out, cfg, scripts, rng, yield, l))
+						obs := runScenarioLate(out, cfg, scripts, rng, yield, l)
+						out.Case(lateReqOf(l, cfg, scripts), obs)
 						out.Count("late.how." + how)
 						if hold && l.nEarly > 0 {
 							out.Count("late.early_still_in_handler")
@@ -877,6 +961,39 @@ func lates(out emitter, rng *wh.Rng, yield bool) {
 					}
 				}
 			}
+		}
+	}
+}
+
+// races: the handler starts a helper goroutine that settles the message the other way at the very moment the Router
+// settles it (helper Nack against the Router's Ack, helper Ack against the Router's Nack). No Publish is involved.
+func races(out emitter, rng *wh.Rng, count_ int, yield bool) {
+	for b := 0; b < count_; b++ {
+		if giveUp() {
+			return
+		}
+		kind := rng.Pick("pub", "pub", "nil", "dis", "disdeco")
+		cfg := config{kind: kind, mws: rng.Pick("", "", "p", "P", "r", "R", "pr")}
+		if kind == "pub" || kind == "nil" {
+			cfg.topic = "out"
+		}
+		n := 32
+		scripts := make([]script, n)
+		for i := range scripts {
+			var w string
+			if rng.Intn(2) == 0 {
+				w = "N." + rng.Pick("r0", "r0", "z0") + ".ok" // Router acks, helper nacks
+			} else {
+				w = "A." + rng.Pick("e0", "c0", "d0", "u0", "pv", "pi", "pe") + ".ok" // Router nacks, helper acks
+			}
+			scripts[i] = scriptFor(kind, w)
+		}
+		begin(out, reqOf(cfg, scripts))
+		obs := runScenario(out, cfg, scripts, rng, yield)
+		out.Case(reqOf(cfg, scripts), obs)
+		out.Count("race.batches")
+		for _, sc := range scripts {
+			out.Count("race.helper_" + string(sc.source[0]) + "_" + map[byte]string{'w': "won", 'l': "lost"}[sc.source[1]])
 		}
 	}
 }
@@ -916,9 +1033,9 @@ var topics = []string{"out", "", "topic with space/and.slash", "out"}
 func resultsFor(kind string) []string {
 	if kind == "dis" || kind == "disdeco" {
 		// a NoPublishHandlerFunc cannot return messages; outputs come from output-adding middleware only
-		return []string{"r0", "e0", "c0", "pv", "pe", "pn", "pi", "ps", "pb", "pc", "pg"}
+		return []string{"r0", "e0", "c0", "d0", "w0", "x0", "u0", "j0", "pv", "pe", "pn", "pi", "ps", "pb", "pc", "pg"}
 	}
-	return []string{"r0", "z0", "r1", "r3", "e0", "e1", "e3", "c0", "c2", "pv", "pe", "pn", "pi", "ps", "pb", "pc", "pg"}
+	return []string{"r0", "z0", "r1", "r3", "e0", "e1", "e3", "c0", "c2", "d0", "w1", "x0", "u2", "j0", "pv", "pe", "pn", "pi", "ps", "pb", "pc", "pg"}
 }
 
 func pubsFor(kind, res string) []string {
@@ -986,7 +1103,9 @@ func matrix(out emitter, rng *wh.Rng, yield bool) {
 							return
 						}
 						begin(out, reqOf(cfg, []script{sc}))
-						out.Case(reqOf(cfg, []script{sc}), runScenario(out, cfg, []script{sc}, rng, yield))
+						scs := []script{sc}
+						obs := runScenario(out, cfg, scs, rng, yield)
+						out.Case(reqOf(cfg, scs), obs)
 						count(out, cfg, sc, false)
 					}
 				}
@@ -999,13 +1118,13 @@ func randomScript(rng *wh.Rng, kind string) script {
 	self := rng.Pick("-", "-", "-", "a", "n")
 	var res string
 	if kind == "dis" || kind == "disdeco" {
-		res = rng.Pick("r0", "r0", "r0", "e0", "c0", "pv", "pe", "pn", "pi", "ps", "pb", "pc", "pg")
+		res = rng.Pick("r0", "r0", "r0", "e0", "c0", "d0", "w0", "x0", "u0", "j0", "pv", "pe", "pn", "pi", "ps", "pb", "pc", "pg")
 	} else {
 		switch rng.Intn(10) {
 		case 0:
 			res = rng.Pick("pv", "pe", "pn", "pi", "ps", "pb", "pc", "pg")
 		case 1:
-			res = rng.Pick("e", "c") + wh.Itoa(rng.Intn(4))
+			res = rng.Pick("e", "c", "d", "w", "x", "u", "j") + wh.Itoa(rng.Intn(4))
 		case 2:
 			res = rng.Pick("r0", "z0")
 		default:
@@ -1042,7 +1161,8 @@ func batches(out emitter, rng *wh.Rng, count_ int, yield bool) {
 			return
 		}
 		begin(out, reqOf(cfg, scripts))
-		out.Case(reqOf(cfg, scripts), runScenario(out, cfg, scripts, rng, yield))
+		obs := runScenario(out, cfg, scripts, rng, yield)
+		out.Case(reqOf(cfg, scripts), obs) // after the run: racing scripts are annotated with the outcome of the race
 		out.Count("batch.count")
 		out.Add("batch.messages", n)
 		switch {
@@ -1067,6 +1187,9 @@ var yieldOn int32
 // (hook point router.run.received, right after `for msg := range h.messagesCh`).
 var received sync.Map
 
+// raceAt: message UUID -> *msgState whose helper is released at router.handle.before_settle
+var raceAt sync.Map
+
 func expectReceived(uuid string) chan struct{} {
 	c := make(chan struct{})
 	received.Store(uuid, c)
@@ -1081,6 +1204,13 @@ func installHook() {
 				close(c.(chan struct{}))
 			}
 			return
+		}
+		if name == "router.handle.before_settle" && len(args) >= 2 {
+			if v, ok := raceAt.LoadAndDelete(args[1]); ok {
+				// the Router is about to Ack: let the helper's Nack go at the same moment
+				atomic.StoreInt32(&v.(*msgState).raceGo, 1)
+				return
+			}
 		}
 		if atomic.LoadInt32(&yieldOn) == 0 {
 			return
@@ -1230,12 +1360,22 @@ func main() {
 		}
 		installYieldHook(a.Seed)
 		begin(out, a.Replay)
-		out.Case(a.Replay, runScenarioLate(out, cfg, scripts, rng, true, late))
+		obs := runScenarioLate(out, cfg, scripts, rng, true, late)
+		if late != nil {
+			out.Case(lateReqOf(late, cfg, scripts), obs)
+		} else {
+			out.Case(reqOf(cfg, scripts), obs)
+		}
 		return
 	}
 	// pass 1: no hook installed, no yields
 	matrix(out, rng, false)
 	lates(out, rng, false)
+	nr := 60
+	if a.Thorough() {
+		nr = 3000
+	}
+	races(out, rng, nr/2, false)
 	nb := 600
 	if a.Thorough() {
 		nb = 40000
@@ -1244,6 +1384,7 @@ func main() {
 	// pass 2: yield injection at router.handle.start / before_publish / before_settle and inside Publish
 	installYieldHook(a.Seed)
 	lates(out, rng, true)
+	races(out, rng, nr-nr/2, true)
 	if a.Thorough() {
 		matrix(out, rng, true)
 	}
